@@ -342,11 +342,18 @@ fn run_expose_single(ctx: &mut Ctx) {
     for x in [F::ZERO, F::ONE, -F::ONE, rand_field::<F>(&mut rng)] {
         single(ctx, &mut kc, Path::Derived(0), Item::Native(x));
     }
+    // plain and committed exposures interleaved: the two counters are independent
+    {
+        let items = vec![Item::Native(F::from(5u64)), Item::Native(F::from(6u64)), Item::Bit(true), Item::Byte(200), Item::Native(-F::ONE), Item::Bit(false)];
+        let paths = [Path::Constrain, Path::Committed, Path::Committed, Path::Assign, Path::Committed, Path::Fixed];
+        let steps: Vec<Step> = items.iter().zip(paths).map(|(it, p)| Step { path: p, proto: it.clone() }).collect();
+        expose_case(ctx, &mut kc, "expose-interleaved", steps, items);
+    }
     use midnight_curves::{
         k256::{Fp as SecpFp, Fq as SecpFq},
         Fp as BlsFp,
     };
-    let nr = if q { 1 } else { 6 };
+    let nr = if q { 1 } else { 12 };
     let ffpaths = [Path::Constrain, Path::Assign, Path::Fixed, Path::Derived(0), Path::Derived(1)];
     for p in ffpaths {
         let lim = |n: usize| if q && !search && p != Path::Constrain && p != Path::Assign { n.min(6) } else { n };
@@ -453,9 +460,9 @@ fn run_expose_mixed(ctx: &mut Ctx) {
     let mut kc = KCache(Default::default());
     let mut rng = ctx.rng("mixed");
     let sizes: Vec<usize> = if small(ctx) { vec![0, 1, 2, 3, 5, 9, 17, 40] } else { (0..=40).collect() };
-    let max_edits = if small(ctx) { 6 } else { 16 };
+    let max_edits = if small(ctx) { 6 } else { 24 };
     for n in sizes {
-        let reps = if small(ctx) { 1 } else { 2 };
+        let reps = if small(ctx) { 1 } else { 4 };
         for _ in 0..reps {
             // small relations use every chip; the large ones mostly native types (cost)
             let chips = if n <= 9 { (true, true, true) } else { (rng.gen_bool(0.7), rng.gen_bool(0.3), rng.gen_bool(0.2)) };
